@@ -3,16 +3,21 @@ From Verif Require Import Check.C17 Proofs.C17_Snapshot.
 
 Lemma P_b_sound (c : case) : P_b c = true ->
   c_race c = false /\ c_hang c = false /\ c_crash c = false /\
-  (forall a, In a (c_answers c ++ c_answers_idx c) -> forall v b, In (v, b) a -> b = true).
+  (forall a, In a (c_answers c ++ c_answers_idx c) -> forall v b, In (v, b) a -> b = true) /\
+  (forall o, In o (c_history c) -> head_ok o = true /\ get_ok (fun min v => v <? min) (c_history c) o = true).
 Proof.
   unfold P_b, answers_whole. intro H.
-  apply andb_true_iff in H as [H Hw]. apply andb_true_iff in H as [H Hc]. apply andb_true_iff in H as [Hr Hh].
-  apply negb_true_iff in Hr, Hh, Hc. repeat split; auto.
-  intros a Ha v b Hin. apply andb_true_iff in Hw as [H1 H2].
-  rewrite forallb_forall in H1, H2.
-  apply in_app_or in Ha as [Ha|Ha]; [specialize (H1 a Ha) | specialize (H2 a Ha)].
-  - rewrite forallb_forall in H1. apply (H1 (v, b) Hin).
-  - rewrite forallb_forall in H2. apply (H2 (v, b) Hin).
+  apply andb_true_iff in H as [H Hhist]. apply andb_true_iff in H as [H Hw]. apply andb_true_iff in H as [H Hc].
+  apply andb_true_iff in H as [Hr Hh].
+  apply negb_true_iff in Hr, Hh, Hc.
+  split; [exact Hr|]. split; [exact Hh|]. split; [exact Hc|]. split.
+  - intros a Ha v b Hin. apply andb_true_iff in Hw as [H1 H2].
+    rewrite forallb_forall in H1, H2.
+    apply in_app_or in Ha as [Ha|Ha]; [specialize (H1 a Ha) | specialize (H2 a Ha)].
+    + rewrite forallb_forall in H1. apply (H1 (v, b) Hin).
+    + rewrite forallb_forall in H2. apply (H2 (v, b) Hin).
+  - intros o Ho. unfold history_sequential, lin_ok_with in Hhist. rewrite forallb_forall in Hhist.
+    specialize (Hhist o Ho). destruct (head_ok o); [split; [reflexivity | exact Hhist] | discriminate].
 Qed.
 
 Lemma answer_eqb_eq a b : answer_eqb a b = true <-> a = b.
